@@ -178,15 +178,16 @@ def rel_c06(prog):
         out["variants"].append(("combo:%s%s" % (sorted(combo), "+pe" if go else ""),
                                 _eval(src, formula_opts=combo, ground_opts=go)))
     # evidence spellings
-    ev = [s for s in prog if s[0] == "evidence"]
-    if ev:
-        rest = [s for s in prog if s[0] != "evidence"]
-        a, v = ev[0][1], ev[0][2]
-        at = progs.atom_str(a)
-        spell = ["evidence(%s)." % at if v else "evidence(\\+%s)." % at,
-                 "evidence(%s,%s)." % (at, "true" if v else "false")]
-        for i, sp in enumerate(spell):
-            out["variants"].append(("evidence-spelling-%d" % i, _eval(progs.render(rest) + sp + "\n")))
+    # evidence spellings: every evidence statement is respelled in place, nothing else changes
+    if any(s[0] == "evidence" for s in prog):
+        def spelled(s, i):
+            at = progs.atom_str(s[1])
+            if i == 0:
+                return "evidence(%s)." % at if s[2] else "evidence(\\+%s)." % at
+            return "evidence(%s,%s)." % (at, "true" if s[2] else "false")
+        for i in range(2):
+            text = "\n".join(spelled(s, i) if s[0] == "evidence" else progs.stmt_str(s) for s in prog) + "\n"
+            out["variants"].append(("evidence-spelling-%d" % i, _eval(text)))
     return out
 
 
